@@ -709,6 +709,9 @@ func vTryNewEnv(t *testing.T, c vEnvCfg) *vEnv {
 	return vNewEnv(t, c)
 }
 
+// vTryNewEnvNoFatal: nil when validation OR the constructor refuses the configuration.
+func vTryNewEnvNoFatal(t *testing.T, c vEnvCfg) *vEnv { return vTryNewEnv(t, c) }
+
 func vNewEnv(t *testing.T, c vEnvCfg) *vEnv {
 	idp := vInstallIdP()
 	o := baseTestOptions()
@@ -733,6 +736,9 @@ func vNewEnv(t *testing.T, c vEnvCfg) *vEnv {
 	}
 	p, err := NewOAuthProxy(o, NewValidator(o.EmailDomains, o.AuthenticatedEmailsFile))
 	if err != nil {
+		if c.optional {
+			return nil
+		}
 		t.Fatalf("NewOAuthProxy: %v", err)
 	}
 	e := &vEnv{t: t, opts: o, p: p, idp: idp, upstream: &vUpstream{}}
